@@ -451,10 +451,33 @@ func cfg2FA(c *RunCtx, id string, unit int) (world.Cfg, *sim.Sim, bool) {
 	return cfg, s, true
 }
 
+// c02FaultProfile: a recovery code completes a login while a storage write of that request fails; the same
+// code is then presented again from another browser.
+var c02FaultProfile = &sim.Profile{
+	W:      map[string]int{"login": 30, "totp_validate": 15, "sms_validate": 15, "logout": 5, "advance": 5, "visit": 5},
+	MinLen: 10, MaxLen: 20, TplProb: 1,
+	Templates: []sim.Template{{Name: "recovery-code-used-while-a-write-fails-then-used-again", F: func(s *sim.Sim) []*sim.Action {
+		if !s.Cfg.Has("auth") || len(s.Cfg.TwoFA) == 0 {
+			return nil
+		}
+		kind := s.Cfg.TwoFA[s.R.Intn(len(s.Cfg.TwoFA))]
+		v := findAcct(s, func(u *world.User) bool {
+			return u.Confirmed && u.RecoveryCodes != "" && ((kind == "totp" && u.TOTPSecretKey != "") || (kind == "sms" && u.SMSPhone != "" && u.TOTPSecretKey == ""))
+		})
+		if v < 0 {
+			return nil
+		}
+		k := kind + "_validate"
+		return []*sim.Action{act("login", 0, v, "ok"), act("faultnext", 0, -9, "", "op", "Save"), act(k, 0, -9, "recovery"), act("visit", 0, -9, "", "route", "/protected/bare"),
+			act("login", 1, v, "ok"), act(k, 1, -9, "recovery_spent"), act("visit", 1, -9, "", "route", "/protected/bare"),
+			act("login", 2, v, "ok"), act("faultnext", 2, -9, "", "op", pickS(s.R, "Save", "Load")), act(k, 2, -9, "recovery"), act(k, 2, -9, "recovery_spent")}
+	}}},
+}
+
 func init() {
 	register(&Check{
 		ID: "C02", Level: "exploration",
-		Rule:  "histories with an adversary who knows every password and owns accounts/phones: directed attack templates (two SMS logins in one session at gaps around the resend limit, cross-kind pending, recover-and-login, OTP login, enrolment-then-victim) interleaved with random noise, plus random walks; after every login-type request, a session that becomes a 2FA-enabled account must come from the matching validate endpoint with a TOTP code of ITS stored secret for the current 30-second period or one either side (the TOTP dependency is put on the virtual clock by the build overlay, so 'stale' probes sit exactly 2, 3, 10, 29, 31, 60 periods away), an SMS code the outbox shows was delivered to ITS registered number, or one of its unused recovery codes. distinct_nontrivial = distinct (flow, code class, account state, session state, mode, outcome) signatures on 2FA-enabled accounts.",
+		Rule:  "histories with an adversary who knows every password and owns accounts/phones: directed attack templates (two SMS logins in one session at gaps around the resend limit, cross-kind pending, recover-and-login, OTP login, enrolment-then-victim) interleaved with random noise, plus random walks; after every login-type request, a session that becomes a 2FA-enabled account must come from the matching validate endpoint with a TOTP code of ITS stored secret for the current 30-second period or one either side (the TOTP dependency is put on the virtual clock by the build overlay, so 'stale' probes sit exactly 2, 3, 10, 29, 31, 60 periods away), an SMS code the outbox shows was delivered to ITS registered number, or one of its unused recovery codes. Every third unit runs a second, directed history (its own PRNG): a recovery code completes a login while a storage write of that request fails, then the same code is presented again from another browser. distinct_nontrivial = distinct (flow, code class, account state, session state, mode, outcome) signatures on 2FA-enabled accounts.",
 		Units: func(t string) int { return tierN(t, 800, 25000) },
 		Run: func(c *RunCtx, unit int) {
 			_, s, ok := cfg2FA(c, "C02", unit)
@@ -462,6 +485,13 @@ func init() {
 				return
 			}
 			sim.RunHistory(s, c02Profile, []sim.Monitor{c02mon{c.Stats}}, c.Stats, unit)
+			if unit%3 == 0 && len(c.Stats.Violations) == 0 {
+				// a second, directed history with a generator of its own: "one of its UNUSED recovery codes" when
+				// the write that strikes the code off fails
+				if _, s2, ok := cfg2FA(c, "C02-recovery-under-fault", unit); ok {
+					sim.RunHistory(s2, c02FaultProfile, []sim.Monitor{c02mon{c.Stats}}, c.Stats, unit)
+				}
+			}
 		},
 		Floors: func(t string) map[string]int {
 			return map[string]int{"2fa-complete:totp-code": 5, "2fa-complete:sms-code": 5, "2fa-complete:recovery": 3, "template:sms-two-logins-one-session": 10, "template:cross-kind-pending": 3, "template:recover-login-2fa": 5}
